@@ -360,7 +360,13 @@ impl Shape for CircleSegment {
 
     fn winding(&self, pt: Point) -> i32 {
         let angle = (pt - self.center).atan2();
-        if angle < self.start_angle || angle > self.start_angle + self.sweep_angle {
+        // `atan2` reports angles in (-π, π], while `start_angle` is arbitrary and the range may
+        // extend past π: measure the angle from `start_angle` in the direction of the sweep and
+        // reduce it to [0, 2π) before comparing it with the sweep.
+        let sign = self.sweep_angle.signum();
+        let rel = sign * (angle - self.start_angle);
+        let rel = rel - 2.0 * PI * (rel / (2.0 * PI)).floor();
+        if rel > self.sweep_angle.abs() {
             return 0;
         }
         let dist2 = (pt - self.center).hypot2();
@@ -368,7 +374,8 @@ impl Shape for CircleSegment {
             // case where outer_radius < inner_radius
             (dist2 < self.inner_radius.powi(2) && dist2 > self.outer_radius.powi(2))
         {
-            1
+            // a negative sweep runs the outline the other way round
+            sign as i32
         } else {
             0
         }
